@@ -66,6 +66,10 @@ def c05(ctx):
         out += fam_lookup.fam_lkx(ctx, "n", 5, limit_states=150000)
     ctx.report.exhaustive = True
     ctx.report.notes.append("exhaustive for the joint state spaces listed under correspondence_families.LKX; LK histories are sampled")
+    if out and not any(d.get("property_violation") for d in out):
+        # each single use still resolves, yet the tables no longer behave like the model's: look for the
+        # damage where the property also observes it -- indices of TermEncoder fed to the Decoder, whole statements
+        out += search_failing_input(ctx)
     return out
 
 
@@ -87,7 +91,48 @@ def en_sweep(ctx, n: int, **kw) -> list:
             ctx.report.sample({"family": "EN", "cfg": cfg.as_json(), "stmts": [core_stmt_tok(s) for s in case["stmts"]][:3], "agreed": d is None})
         if d:
             out.append(d)
+    if out and not any(d.get("property_violation") for d in out) and not kw.get("_no_search"):
+        out += search_failing_input(ctx, kw.get("entry"))
     return out
+
+
+def search_failing_input(ctx, entry=None, budget_s: float = 40.0) -> list:
+    """The correspondence broke but no sampled input violates the property itself: search, on the
+    implementation alone, for an input on which it does (long sequences, tables at their smallest,
+    both fitting and under-sized) -- the oracles are the round trip and the Spec referee."""
+    import time
+
+    import gen as genmod
+
+    t0 = time.time()
+    r = ctx.rng
+    tried = 0
+    while time.time() - t0 < budget_s:
+        tried += 1
+        case = fam_encode.gen_generic_case(ctx, None, fits=r.random() < 0.7, entry=entry if entry in (None, "stream_frames", "flat_file") else None)
+        # longer inputs, smallest tables
+        cls = case["cfg"].cls
+        ar = 3 if cls == "T" else 4
+        g = genmod.Gen(r, nprefix=r.randint(2, 6), nname=r.randint(4, 14), ndt=r.randint(1, 3))
+        case["stmts"] = g.statements(r.choice([10, 30, 60]), ar, typed=case["cfg"].maxd != 0, prepeat=r.choice([0.2, 0.5]))
+        need = genmod.table_need(case["stmts"])
+        case["cfg"].maxn = max(8, need[0])
+        if case["cfg"].maxp:
+            case["cfg"].maxp = max(1, need[1]) + r.randint(0, 1)
+        if case["cfg"].maxd:
+            case["cfg"].maxd = max(1, need[2])
+        case["ns"] = []
+        cfg = case["cfg"]
+        impl = fam_encode.impl_run(cfg, case["stmts"], [], case["sink"], case["entry"], case)
+        pv = fam_encode.property_oracles(ctx, case, impl)
+        ctx.report.evaluations += 1
+        if pv:
+            ctx.report.notes.append(f"search: failing input found after {tried} candidates")
+            return [{"family": "EN", "entry": case["entry"], "cfg": cfg.as_json(), "stmts": [core_stmt_tok(s) for s in case["stmts"]], "ns": [],
+                     "sink": case["sink"], "impl": impl["trace"][:1500], "model": "(search phase: implementation only)", "corresponds": True,
+                     "property_violation": pv, "signature": {}}]
+    ctx.report.notes.append(f"search: no failing input among {tried} candidates")
+    return []
 
 
 def core_stmt_tok(s):
